@@ -2,6 +2,7 @@ package sim
 
 import (
 	"fmt"
+	"time"
 )
 
 func strMapDiff(pre, post map[string]string) []string {
@@ -287,6 +288,15 @@ func C16Scenario() *Scenario {
 		t := w.T
 		ds := NewDecoratorSetup(w, DGenOpts{MaxDecorators: 2, PlainOwner: true, ResyncOnce: true})
 		b := &EnvBudget{Left: 4 + t.Pick(8, "envbudget")}
+		var discoveryGVs []string
+		if t.Pick(4, "discovery") == 3 {
+			// discovery is refreshed every 2 s and the document of a group-version the
+			// attachments live in is unavailable now and then: syncs that need it fail and
+			// are retried; the hook is never shown a map with a declared kind missing
+			ds.Opts.Proc.Discovery = 2 * time.Second
+			discoveryGVs = []string{"/v1", "kids.example.com/v1", "kids.example.com/v1beta1"}
+			w.Cfg["discoveryOutages"] = "true"
+		}
 		cfgChanges := t.Pick(3, "cfgchanges")
 		w.EnvOps = func(w *World) []EnvOp {
 			var ops []EnvOp
@@ -294,6 +304,9 @@ func C16Scenario() *Scenario {
 			ops = append(ops, ds.TargetEdits(b)...)
 			ops = append(ops, ds.AttachmentChaos(b)...)
 			ops = append(ops, GCOps(w)...)
+			if len(discoveryGVs) > 0 {
+				ops = append(ops, DiscoveryOutages(w, b, discoveryGVs)...)
+			}
 			if b.Left > 0 && cfgChanges > 0 && w.Proc != nil && !w.Proc.ReconcileBusy() {
 				// the finalize hook is added to / removed from a DecoratorController later:
 				// the hosted controller restarts, targets may carry a leftover finalizer
@@ -317,7 +330,7 @@ func C16Scenario() *Scenario {
 		w.Cfg["policy"] = pol.Name
 		w.Stages = []Stage{
 			{Name: "chaos", Policy: pol, Steps: 150 + 100*t.Pick(3, "len")},
-			{Name: "drain", Quiet: true, CheckOnBudget: true, MaxSteps: 4000, Do: func(w *World) { b.Left = 0; cfgChanges = 0 }, Check: func(w *World) *Violation {
+			{Name: "drain", Quiet: true, CheckOnBudget: true, MaxSteps: 4000 + 20000*min(1, len(discoveryGVs)), Do: func(w *World) { b.Left = 0; cfgChanges = 0; w.DiscoveryDown = nil }, Check: func(w *World) *Violation {
 				if v := c16Oracle(w, ds); v != nil {
 					return v
 				}
